@@ -15,7 +15,10 @@ Legs
              same call in a fresh interpreter (forked from a process that has only imported `pde`; a subset in a
              really new interpreter through harness/common/isolated.py).
   heap       histories {write, relink by a collection, assign `_data_full`, interpolate, rate of a PDE using the
-             field as a constant} against `hrun`/`href`.
+             field as a constant} against `hrun`/`href`; heap:jit the same around the numba-COMPILED rate
+             (`make_pde_rhs(state, "numba")` with the JIT enabled), whose model carries the copy numba freezes.
+  Every monitor result is classified by a narrow key; findings E (KEY_FROZEN) and H (KEY_UNINIT, KEY_UNINIT_FIELD)
+  are genuine defects of the unchanged tree (notes/C04.md, notes/proposed_fixes/).
 """
 import copy
 import itertools
@@ -39,15 +42,23 @@ REQUIRED_THEOREMS = [
     "bc_key_faithful", "bc_key_collision_dirichlet_neumann_old",
     "interpolator_reads_current_buffer", "interpolator_stale_after_relink_old",
     "kwargs_order_independent",
+    "opreq_key_faithful", "bcs_key_faithful", "grid_key_faithful_mutable",
+    "helpers_read_current_content", "helpers_read_current_content_fixE", "pde_rate_jit_stale_after_write",
+    "cache_sound_of_faithful_on", "events_sound_of_faithful_on", "grid_obs_of_key_eq", "arg_obs_of_key_eq",
+    "kwargs_obs_of_key_eq", "opreq_obs_of_key_eq", "make_operator_cache_sound", "make_operator_events_sound",
+    "kwargs_method_cache_sound",
 ]
 RULE = ("pairs: a seed-derived base request (grid of every class, operator, per-side boundary conditions of every "
-        "constant class incl. normal/mixed/periodic, dtype, kwargs) and a variant that changes one or two attributes "
-        "(class with equal value, side, axis, rank, normal flag, homogeneous vs per-face array with equal entries, "
-        "value/const numbers incl. -1/-2, 0.0/-0.0 and equal-bytes int/float, flip sign, grid class with equal bounds, "
-        "bounds, shape, periodicity, operator, kwargs order/values, dtype spelling); a case is distinct by the two "
+        "constant class incl. normal/mixed/periodic - normal_* with EVERY operator of rank >= 1 -, dtype, kwargs) and a variant "
+        "that changes one or two attributes (class with equal value, side, axis, rank, normal flag, homogeneous vs per-face array "
+        "with equal entries, value/const numbers incl. -1/-2, 0.0/-0.0 and equal-bytes int/float, flip sign, grid class with equal "
+        "bounds, bounds, shape, periodicity, operator, kwargs order/values, dtype spelling); a case is distinct by the two "
         "requests and non-trivial if both requests can be built and at least one attribute differs.  histories: "
-        "3-9 operations over 1-2 grids and 1-3 fields drawn from the same vocabulary; distinct by the operation list, "
-        "non-trivial if the last call touches a cache that an earlier operation filled")
+        "3-12 operations over 1-2 grids and 1-4 fields drawn from the same vocabulary (operators, ghost-cell setters, "
+        "interpolation, PDEs with numeric/field constants, two-variable PDEs on collections, argument objects shared between "
+        "requests, one PDE object on twin grids of different class, evaluate, solve); distinct by the operation list, "
+        "non-trivial if the last call touches a cache that an earlier operation filled.  heap / heap:jit: 3-14 events on one "
+        "field {write, relink, assign, interpolate, interpreted rate, compiled rate}")
 ASSUMPTIONS = [
     "the builtin hash of str/bytes/tuple/frozenset is idealised as injective (chance collisions of the 64-bit hash "
     "are excluded); its systematic coincidences (numeric hash modulo 2^61-1, hash(-1)=-2, None, '' and b'', ASCII "
@@ -56,9 +67,9 @@ ASSUMPTIONS = [
     "fresh interpreter = process forked from one that has only imported pde (no py-pde call made); a subset of the "
     "histories is additionally run in a really new interpreter",
     "MPI conditions (_MPIBC._cache_hash), jax/torch backends are not installed: their keys are modelled but not run",
-    "normal_* conditions are generated only together with operators that read just the normal component's ghost cells "
-    "(divergence): with other operators (vector_laplace, vector_gradient, tensor_divergence) the conditions do not "
-    "determine the operator's inputs (the remaining ghost cells are uninitialised memory) - outside the property, as in C03",
+    "a function object handed out earlier (a compiled rhs, an interpolator) and kept by the caller is not called again "
+    "after the state changed: every query of a history asks py-pde again (make_pde_rhs, make_interpolator, solve ...), "
+    "as the property's 'requests' do",
 ]
 TRUSTED_EXTRA = ["harness/common/pygraph.py: the serialiser of real objects into model object graphs (my reading of "
                  "which branch of hash_mutable applies; it never calls hash_mutable)"]
@@ -69,6 +80,17 @@ KEY_PDE = {"call_site": "PDE._prepare_cache", "symptom": "stale const field buff
 KEY_F1 = {"call_site": "hash_mutable", "symptom": "class not in key of __dict__ fallback"}
 KEY_GRID = {"call_site": "GridBase._cache_hash", "symptom": "builtin hash of bounds: hash(-1)==hash(-2)"}
 KEY_F2 = {"call_site": "FieldBase._data_full", "symptom": "stale interpolator after relink"}
+# finding E (reviewer finding 1): numba freezes closure arrays when it compiles; `_prepare_cache` reuses the compiled rhs
+# as long as the constant field's array OBJECT is the same, so in-place writes to the constant are ignored
+KEY_FROZEN = {"call_site": "PDE._prepare_cache", "backend": "numba",
+              "symptom": "compiled rhs keeps the compile-time copy of a field-valued constant after an in-place write"}
+# finding H (reviewer finding 2): the operator wrapper allocates the padded array with np.empty and `normal_*` conditions
+# set only the ghost cells of the normal component
+KEY_UNINIT = {"call_site": "NumbaBackend.make_operator", "conditions": "normal_*",
+              "symptom": "ghost cells that no condition sets are read uninitialised (np.empty)"}
+KEY_UNINIT_FIELD = {"call_site": "DataFieldBase.apply_operator", "conditions": "normal_*",
+                    "symptom": "ghost cells that no condition sets are read uninitialised (np.empty)"}
+KEY_CRASH = {"call_site": "history", "symptom": "crash or setup error on one side only"}
 
 
 # ==========================================================================================
@@ -145,15 +167,28 @@ def rnd_data(seed, shape, cplx=False):
     return a
 
 
-def arr_close(x, y, tol=1e-10):
+def arr_close(x, y, tol=1e-10, mask=None):
+    """ELEMENTWISE comparison: two entries agree if both are NaN, if they are equal (this is the only way for
+    infinite entries), or if both are finite and `|x-y| <= tol * max(1, |x|, |y|)`.  A non-finite entry on one side
+    only is a difference; one huge entry does not widen the tolerance of the others.
+    `mask` (boolean, broadcastable): entries where it is False are not compared."""
     x, y = np.asarray(x), np.asarray(y)
     if x.shape != y.shape:
         return False
     if x.size == 0:
         return True
+    if x.dtype == object or y.dtype == object:
+        return False
     with np.errstate(all="ignore"):
-        sc = max(1.0, float(np.nanmax(np.abs(x))) if np.isfinite(x).any() else 1.0)
-        return bool(np.allclose(x, y, rtol=0, atol=tol * sc, equal_nan=True))
+        both_nan = np.isnan(x) & np.isnan(y)
+        eq = x == y
+        fin = np.isfinite(x) & np.isfinite(y)
+        sc = np.maximum(1.0, np.maximum(np.abs(x), np.abs(y)))
+        close = fin & (np.abs(x - y) <= tol * sc)
+        ok = both_nan | eq | close
+    if mask is not None:
+        ok = ok | ~np.broadcast_to(np.asarray(mask, dtype=bool), ok.shape)
+    return bool(np.all(ok))
 
 
 def lst(x):
@@ -210,20 +245,21 @@ def num_of(v):
     return dec(v)
 
 
-# `normal_*` conditions only determine the ghost cells of the normal component: they are generated only together
-# with operators that read nothing else (otherwise the result contains uninitialised memory, see notes/C04.md)
-NORMAL_OK = {"divergence", None}
+# `normal_*` conditions only set the ghost cells of the normal component.  They are generated together with EVERY
+# operator of rank >= 1: with operators that also read the other components' ghost cells (vector_laplace,
+# vector_gradient) some output cells are not determined by data and conditions; `defined_mask` finds those cells, all
+# comparisons are made on the determined cells, and `heap_dependence` judges the rest literally (finding H, KEY_UNINIT)
 
 
 def has_normal(bc):
     return any(not isinstance(s, str) and s["type"].startswith("normal_") for s in bc.values())
 
 
-def gen_side(rng, gd, axis, rank, normal_ok=True):
+def gen_side(rng, gd, axis, rank):
     """one local condition with a homogeneous value (variants make it inhomogeneous)"""
     kinds = ["dirichlet", "neumann", "mixed", "curvature"]
     kind = rng.choice(kinds)
-    normal = normal_ok and rank >= 1 and rng.random() < 0.3
+    normal = rank >= 1 and rng.random() < 0.3
     alias = ("normal_" if normal else "") + KIND_ALIAS[kind]
     s = {"type": alias, "value": gen_number(rng)}
     if kind == "mixed":
@@ -238,8 +274,8 @@ def gen_bc(rng, gd, rank, op=None):
         if gd["periodic"][ax]:
             spec[name] = rng.choice(["periodic", "periodic", "anti-periodic"])
         else:
-            lo = gen_side(rng, gd, ax, rank, op in NORMAL_OK)
-            hi = copy.deepcopy(lo) if rng.random() < 0.3 else gen_side(rng, gd, ax, rank, op in NORMAL_OK)
+            lo = gen_side(rng, gd, ax, rank)
+            hi = copy.deepcopy(lo) if rng.random() < 0.3 else gen_side(rng, gd, ax, rank)
             spec[name + "-"], spec[name + "+"] = lo, hi
     return spec
 
@@ -317,7 +353,7 @@ def apply_variant(rng, req, v):
             b["bc"][ax[0] + s], b["bc"][ax[1] + s] = b["bc"][ax[1] + s], b["bc"][ax[0] + s]
         return b
     if v == "normal":
-        if not keys or b["rank"] < 1 or b["op"] not in NORMAL_OK:
+        if not keys or b["rank"] < 1:
             return None
         k = rng.choice(keys)
         t = b["bc"][k]["type"]
@@ -463,8 +499,8 @@ def apply_variant(rng, req, v):
         if gd["periodic"][ax]:
             gd["periodic"][ax] = False
             b["bc"].pop(name)
-            b["bc"][name + "-"] = gen_side(rng, gd, ax, b["rank"], b["op"] in NORMAL_OK)
-            b["bc"][name + "+"] = gen_side(rng, gd, ax, b["rank"], b["op"] in NORMAL_OK)
+            b["bc"][name + "-"] = gen_side(rng, gd, ax, b["rank"])
+            b["bc"][name + "+"] = gen_side(rng, gd, ax, b["rank"])
         else:
             gd["periodic"][ax] = True
             b["bc"].pop(name + "-")
@@ -472,7 +508,7 @@ def apply_variant(rng, req, v):
             b["bc"][name] = "periodic"
         return b
     if v == "op":
-        same_rank = [o for o, r in ops_of(gd) if r == b["rank"] and o != b["op"] and (o in NORMAL_OK or not has_normal(b["bc"]))]
+        same_rank = [o for o, r in ops_of(gd) if r == b["rank"] and o != b["op"]]
         if not same_rank:
             return None
         b["op"] = rng.choice(same_rank)
@@ -541,6 +577,13 @@ def gen_req_pair(rng, hist):
         if ok:
             for v in vs:
                 hist("variant", v)
+            hist("req:grid-class", f"{a['grid']['cls']}/{len(a['grid']['shape'])}d" + ("/periodic" if any(a["grid"]["periodic"]) else ""))
+            hist("req:operator", a["op"] if a["op"] == b["op"] else f"{a['op']}|{b['op']}")
+            for r in (a, b):
+                for sd in r["bc"].values():
+                    hist("req:bc-class", sd if isinstance(sd, str) else sd["type"] + (":" + sd["value"][0] if sd["value"][0] in ("arr", "s") else ""))
+                if has_normal(r["bc"]):
+                    hist("req:normal-with-operator", r["op"])
             return {"kind": "req", "a": a, "b": b, "variants": vs, "seed": rng.randrange(1 << 30)}
     raise RuntimeError("no applicable variant")
 
@@ -731,6 +774,75 @@ def apply_op(op, grid, info, seed, cplx=False):
     return outs
 
 
+def defined_mask(grid, info, bcs, kwargs, backend=None):
+    """which output cells of operator-with-conditions are determined by the data and the conditions.  The padded array
+    is filled with NaN, its valid part with finite data, the ghost cells are set by the conditions (Python level,
+    nothing cached) and the operator WITHOUT conditions (built by the factory directly, nothing cached) is applied: an
+    output cell whose stencil reads a cell that nobody wrote is NaN.  Returns a boolean array of the output shape."""
+    from pde import get_backend
+    backend = backend or get_backend("numba")
+    shape_full = (grid.dim,) * info.rank_in + grid._shape_full
+    full = np.full(shape_full, np.nan)
+    d = rnd_data(12345, (grid.dim,) * info.rank_in + grid.shape)
+    if type(grid).__name__ == "SphericalSymGrid" and info.rank_in == 1:
+        d[1:] = 0
+    full[(..., *grid._idx_valid)] = d
+    bcs.set_ghost_cells(full)
+    raw = info.factory(grid, backend=backend, **kwargs)
+    out = np.zeros((grid.dim,) * info.rank_out + grid.shape)
+    raw(full, out)
+    return ~np.isnan(out)
+
+
+def poison_heap(shape, dtype, fill):
+    """leave freed blocks of the size of the padded array filled with `fill` where the allocator will hand them out
+    again (numpy keeps a small cache of freed blocks per size)"""
+    junk = [np.full(shape, fill, dtype=dtype) for _ in range(6)]
+    del junk
+
+
+def heap_dependence(op, grid, info, seed, poison=None):
+    """the literal clause 'depends only on its arguments and the current contents of the fields': the same operator on
+    the same data after two different allocation histories.  Returns None or the two results."""
+    poison_heap = poison or globals()["poison_heap"]
+    shape = (grid.dim,) * info.rank_in + grid.shape
+    shape_full = (grid.dim,) * info.rank_in + grid._shape_full
+    d = rnd_data(seed, shape)
+    if type(grid).__name__ == "SphericalSymGrid" and info.rank_in == 1:
+        d[1:] = 0
+    res = []
+    for fill in (1e30, -7.0):
+        poison_heap(shape_full, d.dtype, fill)
+        res.append(np.array(op(d)))
+    if arr_close(res[0], res[1]):
+        return None
+    with np.errstate(all="ignore"):
+        differ = ~((res[0] == res[1]) | (np.isnan(res[0]) & np.isnan(res[1])))
+    return {"first": res[0], "second": res[1], "cells": differ}
+
+
+def heap_dependence_field(grid, info, req, seed):
+    """the same clause for `field.apply_operator(operator, bc)`: the field is created from the same data after two
+    different allocation histories (the field allocates its padded array itself, the conditions set ghost cells in it)"""
+    import pde
+    cls = [pde.ScalarField, pde.VectorField, pde.Tensor2Field][info.rank_in]
+    shape = (grid.dim,) * info.rank_in + grid.shape
+    shape_full = (grid.dim,) * info.rank_in + grid._shape_full
+    d = rnd_data(seed, shape)
+    if type(grid).__name__ == "SphericalSymGrid" and info.rank_in == 1:
+        d[1:] = 0
+    res = []
+    for fill in (1e30, -7.0):
+        poison_heap(shape_full, d.dtype, fill)
+        f = cls(grid, d)
+        res.append(np.array(f.apply_operator(req["op"], bc=dec_bc(req["bc"]), **{k: dec(v) for k, v in req["kwargs"]}).data))
+    if arr_close(res[0], res[1]):
+        return None
+    with np.errstate(all="ignore"):
+        differ = ~((res[0] == res[1]) | (np.isnan(res[0]) & np.isnan(res[1])))
+    return {"first": res[0], "second": res[1], "cells": differ}
+
+
 def real_req_pair(case):
     from harness.common import pygraph as G
     from pde.backends.numba.backend import NumbaBackend
@@ -760,24 +872,66 @@ def real_req_pair(case):
                 "kwargs": [[k, G.ser(v)] for k, v in kw.items() if k not in ("bcs", "dtype")]}
         except G.Unmodelled:
             out[tag] = None
-    # the cached method, in the order a then b
-    opa = backend.make_operator(ga, ia, **kwa)
-    opb = backend.make_operator(gb, ib, **kwb)
-    out["shared"] = opa is opb
-    fa = fresh_make(backend, ga, ia, **kwa)
-    fb = fresh_make(backend, gb, ib, **kwb)
+    # the cached method, in the order a then b; then the uncached one.  An exception is a result like any other
+    made = {}
+    for tag, f in (("ca", lambda: backend.make_operator(ga, ia, **kwa)), ("cb", lambda: backend.make_operator(gb, ib, **kwb)),
+                   ("fa", lambda: fresh_make(backend, ga, ia, **kwa)), ("fb", lambda: fresh_make(backend, gb, ib, **kwb))):
+        try:
+            made[tag] = f()
+        except Exception as e:
+            made[tag] = "EXC:" + exc_class(e)
+    out["shared"] = made["ca"] is made["cb"] and not isinstance(made["ca"], str)
+    if isinstance(made["fa"], str) or isinstance(made["fb"], str):
+        # the request itself is rejected: the cached call must be rejected in the same way
+        out["error"] = f"make:{made['fa'] if isinstance(made['fa'], str) else made['fb']}"
+        if (made["ca"] if isinstance(made["ca"], str) else "ok") != (made["fa"] if isinstance(made["fa"], str) else "ok") or \
+                (made["cb"] if isinstance(made["cb"], str) else "ok") != (made["fb"] if isinstance(made["fb"], str) else "ok"):
+            out["one_sided"] = {k: (v if isinstance(v, str) else "ok") for k, v in made.items()}
+        return out
+    if isinstance(made["ca"], str) or isinstance(made["cb"], str):
+        out["error"] = "make-cached"
+        out["one_sided"] = {k: (v if isinstance(v, str) else "ok") for k, v in made.items()}
+        return out
+    opb, fa, fb = made["cb"], made["fa"], made["fb"]
     seed = case["seed"]
     try:
+        # cells that data + conditions determine (all of them unless a `normal_*` condition is present)
+        ma = defined_mask(ga, ia, kwa["bcs"], {k: dec(v) for k, v in case["a"]["kwargs"]}, backend) if has_normal(case["a"]["bc"]) else True
+        mb = defined_mask(gb, ib, kwb["bcs"], {k: dec(v) for k, v in case["b"]["kwargs"]}, backend) if has_normal(case["b"]["bc"]) else True
+        out["undefined_cells"] = [int(np.size(m) - np.count_nonzero(m)) if m is not True else 0 for m in (ma, mb)]
         ra = apply_op(fa, ga, ia, seed)
         rb = apply_op(fb, gb, ib, seed)
         same_domain = (ga.dim,) * ia.rank_in + ga.shape == (gb.dim,) * ib.rank_in + gb.shape
-        out["sem_eq"] = bool(same_domain and all(arr_close(x, y) for x, y in zip(ra, rb)))
-        cb = apply_op(opb, gb, ib, seed)
-        out["cached_ok"] = all(arr_close(x, y) for x, y in zip(cb, rb))
-        if not out["cached_ok"]:
-            out["observed"] = lst(cb[0])
-            out["expected"] = lst(rb[0])
+        same_mask = bool(same_domain and ra[0].shape == rb[0].shape
+                         and np.array_equal(np.broadcast_to(ma, ra[0].shape), np.broadcast_to(mb, rb[0].shape)))
+        out["sem_eq"] = bool(same_domain and same_mask and all(arr_close(x, y, mask=mb) for x, y in zip(ra, rb)))
+        try:
+            cb = apply_op(opb, gb, ib, seed)
+            out["cached_ok"] = all(arr_close(x, y, mask=mb) for x, y in zip(cb, rb))
+            if not out["cached_ok"]:
+                out["observed"] = lst(cb[0])
+                out["expected"] = lst(rb[0])
+        except Exception as e:
+            out["cached_ok"] = False
+            out["observed"], out["expected"] = "EXC:" + exc_class(e), lst(rb[0])
         out["nonzero"] = bool(any(np.any(x != 0) for x in rb))
+        # the same request on the same data after different allocation histories
+        hd = heap_dependence(fb, gb, ib, seed)
+        if hd is not None:
+            inside = bool(mb is not True and not np.any(hd["cells"] & np.broadcast_to(mb, hd["cells"].shape)))
+            out["heap_dep"] = {"first": lst(hd["first"]), "second": lst(hd["second"]),
+                               "cells_differing": np.argwhere(hd["cells"]).tolist()[:12], "n_cells_differing": int(hd["cells"].sum()),
+                               "only_in_cells_no_condition_determines": inside}
+        try:
+            hf = heap_dependence_field(gb, ib, case["b"], seed)
+        except Exception as e:
+            out["field_error"] = exc_class(e)
+            hf = None
+        if hf is not None:
+            inside = bool(mb is not True and not np.any(hf["cells"] & np.broadcast_to(mb, hf["cells"].shape)))
+            out["heap_dep_field"] = {"first": lst(hf["first"]), "second": lst(hf["second"]),
+                                     "cells_differing": np.argwhere(hf["cells"]).tolist()[:12], "n_cells_differing": int(hf["cells"].sum()),
+                                     "only_in_cells_no_condition_determines": inside}
     except Exception as e:
         out["error"] = f"apply:{exc_class(e)}:{e}"
     return out
@@ -797,6 +951,12 @@ def real_obj_pair(case):
         out["sa"], out["sb"] = G.grid_spec(a), G.grid_spec(b)
         out["sem_eq"] = bool(type(a) is type(b) and a.shape == b.shape and tuple(map(tuple, a.axes_bounds)) == tuple(map(tuple, b.axes_bounds))
                              and list(a.periodic) == list(b.periodic))
+        # `GridBase.__eq__` validates caches too (`state.attributes == cache["state_attributes"]` in `PDE._prepare_cache`):
+        # grids that compare equal must be the same geometry (a UnitGrid IS the CartesianGrid with the same bounds)
+        geo = lambda g: "CartesianGrid" if type(g).__name__ == "UnitGrid" else type(g).__name__
+        out["grid_eq"] = bool(a == b)
+        out["geom_eq"] = bool(geo(a) == geo(b) and a.shape == b.shape and tuple(map(tuple, a.axes_bounds)) == tuple(map(tuple, b.axes_bounds))
+                              and list(a.periodic) == list(b.periodic))
         return out
     objs = []
     for tag in ("a", "b"):
@@ -996,6 +1156,27 @@ def real_deco(case):
 
 
 def pair_worker(case):
+    return pair_worker_inner(case)
+
+
+def pair_worker_forked(case):
+    """one case in a forked child: a crash of the real code is a result ('CRASH:...').  Forking per case costs about
+    0.3 s CPU: used only after a worker process died (`run_resilient`) and for replays."""
+    import pde  # noqa: F401
+    return forked_call(pair_worker_inner, case)
+
+
+def run_resilient(func, cases, env):
+    """`run_many`; if an interpreter dies, once more with every case in a forked child, so that the death becomes the
+    result of the case that caused it"""
+    from harness.common.lean import BrokenCheck
+    try:
+        return run_many("harness.c04", func, cases, env=env, procs=16)
+    except BrokenCheck:
+        return run_many("harness.c04", func + "_forked", cases, env=env, procs=16)
+
+
+def pair_worker_inner(case):
     quiet()
     k = case["kind"]
     if k == "req":
@@ -1055,16 +1236,18 @@ def run_pairs(ctx, batch):
     order = list(range(len(cases)))
     rng.shuffle(order)  # balance the worker chunks
     shuffled = [cases[i] for i in order]
-    res_sh = run_many("harness.c04", "pair_worker", shuffled, env={"NUMBA_DISABLE_JIT": "1"}, procs=16)
+    res_sh = run_resilient("pair_worker", shuffled, {"NUMBA_DISABLE_JIT": "1"})
     results = [None] * len(cases)
     for i, r in zip(order, res_sh):
         results[i] = r
     pending = []
     for case, res in zip(cases, results):
-        if isinstance(res, str):
-            raise RuntimeError(f"pair worker failed on {json.dumps(case)[:400]}: {res}")
         k = case["kind"]
         req = None
+        if isinstance(res, str):
+            # an exception nobody expected inside the worker: the tie for this case is broken, the others are still judged
+            pending.append((case, {"worker_exc": res if res.startswith("CRASH") else res[-600:]}, None, None))
+            continue
         if k == "deco":
             req = batch.add("c04.replay_cache", {"cap": case["cap"], "ignore": {"f": case["ignore"], "g": case["ignore"]},
                                                  "events": res["events"]})
@@ -1109,6 +1292,19 @@ def fixed_pairs():
                 n += 1
                 out.append({"kind": "req", "a": req(mk(ka), op=op, rank=rank), "b": req(mk(kb), op=op, rank=rank),
                             "variants": ["class-matrix"], "seed": n})
+    # H: `normal_*` classes with the operators that also read the other components' ghost cells (2d): class confusion
+    # among the normal classes and between a normal class and its plain counterpart, judged on the determined cells
+    g2 = {"cls": "UnitGrid", "shape": [4, 3], "bounds": [[0.0, 4.0], [0.0, 3.0]], "periodic": [False, False]}
+    for op in ("vector_laplace", "vector_gradient"):
+        for ka, kb in (("normal_value", "normal_derivative"), ("normal_derivative", "normal_value"), ("value", "normal_value"),
+                       ("normal_value", "value"), ("normal_curvature", "normal_value"), ("normal_mixed", "normal_derivative")):
+            mk = lambda k: dict({"type": k, "value": ["f", 1.0]}, **({"const": ["f", 1.0]} if k.endswith("mixed") else {}))
+            n += 1
+            ra, rb = req(mk(ka), op=op, rank=1), req(mk(kb), op=op, rank=1)
+            for r, k in ((ra, ka), (rb, kb)):
+                r["grid"] = copy.deepcopy(g2)
+                r["bc"] = {"x-": mk(k), "x+": mk(k), "y-": {"type": "value", "value": ["f", 0.5]}, "y+": {"type": "derivative", "value": ["f", 0.0]}}
+            out.append({"kind": "req", "a": ra, "b": rb, "variants": ["class-matrix-normal-2d"], "seed": n})
     # B: equal bytes, different dtype
     out.append({"kind": "req", "a": req({"type": "value", "value": ["i", 1]}), "b": req({"type": "value", "value": ["f", 5e-324]}),
                 "variants": ["same_bytes"], "seed": 4})
@@ -1131,6 +1327,10 @@ def judge_pairs(ctx, pending, answers):
         k = case["kind"]
         leg = f"pairs:{k}"
         cj = slim(case)
+        if "worker_exc" in res:
+            ctx.count(cj, nontrivial=False, leg=leg + ":worker-exception")
+            died(ctx, leg, cj, res["worker_exc"], k)
+            continue
         if k == "deco":
             ctx.count(cj, nontrivial=len(set(res["answers"])) < len(res["answers"]), leg=leg)
             ctx.impl_traces += 1
@@ -1171,6 +1371,11 @@ def judge_pairs(ctx, pending, answers):
         if "shared" in res and res["shared"] != res["hash_eq"]:
             ctx.disagree("wrapper", cj, {"key_equal": res["hash_eq"]}, {"cached_objects_identical": res["shared"]},
                          "the cached method shares/does not share although the wrapper key says otherwise")
+        if k == "gridobj" and ok_built:
+            ctx.hist("gridobj:eq", f"==:{res.get('grid_eq')} same-geometry:{res.get('geom_eq')}")
+            if res.get("grid_eq") and not res.get("geom_eq"):
+                ctx.disagree("grid-eq-faithful", cj, {"same_geometry": False}, {"a == b": True},
+                             "grids of different geometry compare equal (grid equality validates PDE._cache)")
         if k in ("bcobj", "gridobj") and ok_built and res["hash_eq"] and not res["sem_eq"]:
             # not by itself a violation (no cached method is keyed by a single condition or grid), but the key is
             # not faithful on these objects: reported as a broken tie unless the model agrees
@@ -1179,28 +1384,94 @@ def judge_pairs(ctx, pending, answers):
             else:
                 ctx.disagree("object-key-faithful", cj, {"key_equal": True}, {"denote_same_function": False},
                              "equal keys for objects that denote different functions")
+        call_site = {"req": "NumbaBackend.make_operator", "interp": "DataFieldBase.make_interpolator",
+                     "nobc": "GridBase.make_operator_no_bc"}.get(k, k)
         if k in ("leaf", "bcobj", "gridobj") or not ok_built:
             if not ok_built:
                 ctx.hist("malformed", res["error"][:40])
+                if res.get("one_sided"):
+                    # the cached call and the uncached call of the same request do not fail alike
+                    ctx.monitor_evals += 1
+                    ctx.monitor_fail(leg, cj, {"symptom": "one_sided_exception", "outcomes": res["one_sided"]},
+                                     {"cached_and_fresh_calls_fail_alike": True}, f"{k}: exception on one side only",
+                                     key={"call_site": call_site, "symptom": "exception in the cached or the fresh call only"})
             continue
         # the property on this pair: after the cached call for a, the cached call for b is a fresh b
         ctx.monitor_evals += 1
         shared = res.get("shared", res["hash_eq"])
         bad = None
         if not res["cached_ok"]:
-            bad = "the cached call returns something else than a freshly built one after the other request was served"
+            bad = ("cached_differs", "the cached call returns something else than a freshly built one after the other request was served")
         elif shared and not res["sem_eq"]:
-            bad = "two requests that denote different functions share one cached implementation"
+            bad = ("shared_different_sem", "two requests that denote different functions share one cached implementation")
         if bad:
-            key = classify(model) or dict(GENERIC_KEY, call_site={"req": "NumbaBackend.make_operator", "interp": "DataFieldBase.make_interpolator",
-                                                                   "nobc": "GridBase.make_operator_no_bc"}[k])
-            ctx.monitor_fail(leg, cj, {"problem": bad, "result_of_second_request": res.get("observed"), "shared_object": shared},
+            key = classify(model) or dict(GENERIC_KEY, call_site=call_site)
+            ctx.monitor_fail(leg, cj, {"symptom": bad[0], "problem": bad[1], "result_of_second_request": res.get("observed"), "shared_object": shared},
                              {"fresh": res.get("expected")}, f"{k}: {key.get('symptom')}", key=key)
+        if k == "req":
+            ctx.hist("req:undefined-cells", "some" if any(res.get("undefined_cells", [0, 0])) else "none")
+            # ... and the same request on the same data does not depend on earlier allocations
+            ctx.monitor_evals += 1
+            hd = res.get("heap_dep")
+            if hd:
+                key = KEY_UNINIT if hd["only_in_cells_no_condition_determines"] and has_normal(case["b"]["bc"]) else \
+                    dict(call_site=call_site, symptom="result depends on the contents of freed memory")
+                ctx.monitor_fail(leg, dict(cj, a=cj["b"], variants=["heap"]), dict(hd, symptom="heap_dependence"),
+                                 {"same_result_after_any_allocation_history": True}, f"{k}: {key['symptom']}", key=key)
+            # ... nor does `field.apply_operator` of a field created from the same data
+            ctx.monitor_evals += 1
+            if res.get("field_error"):
+                ctx.hist("req:field-apply-error", res["field_error"])
+            hf = res.get("heap_dep_field")
+            if hf:
+                key = KEY_UNINIT_FIELD if hf["only_in_cells_no_condition_determines"] and has_normal(case["b"]["bc"]) else \
+                    dict(call_site="DataFieldBase.apply_operator", symptom="result depends on the contents of freed memory")
+                ctx.monitor_fail(leg, dict(cj, a=cj["b"], variants=["heap-field"]), dict(hf, symptom="heap_dependence_field"),
+                                 {"same_result_after_any_allocation_history": True}, f"{k}: field.apply_operator: {key['symptom']}", key=key)
 
 
 # ==========================================================================================
 # HISTORIES
-QUERY_OPS = {"make_operator", "ghost_setter", "interpolate", "field_op", "rate", "rhs", "solve", "diffusion", "nobc"}
+QUERY_OPS = {"make_operator", "ghost_setter", "interpolate", "field_op", "rate", "rhs", "solve", "diffusion", "nobc", "evaluate"}
+
+
+def uf_f(c):
+    return -0.5 * c
+
+
+def uf_g(c):
+    return c * c + 1.0
+
+
+USER_FUNCS = {"f": uf_f, "g": uf_g}
+
+
+def snapshot(obj):
+    """what a caller can see of an argument object (dict of functions / numbers / fields / nested dicts)"""
+    if isinstance(obj, dict):
+        return {str(k): snapshot(v) for k, v in obj.items()}
+    if isinstance(obj, (list, tuple)):
+        return [snapshot(v) for v in obj]
+    if callable(obj):
+        return "callable:" + getattr(obj, "__qualname__", type(obj).__name__)
+    if isinstance(obj, np.ndarray):
+        return "ndarray:" + repr(obj.tolist())
+    if hasattr(obj, "grid") and hasattr(obj, "data"):
+        return "field:" + type(obj).__name__
+    return type(obj).__name__ + ":" + repr(obj)
+
+
+def mutated_args(env):
+    """names of the caller's argument objects that py-pde changed.  One change is documented and tolerated:
+    `set_default_bc` adds the default `'*': 'auto_periodic_neumann'` to a boundary dictionary given per axis."""
+    out = []
+    for name, (what, snap) in env.get("shared_snap", {}).items():
+        now = snapshot(env["shared"][name])
+        if what == "bc" and "*" not in snap and now.get("*") == "str:'auto_periodic_neumann'":
+            now = {k: v for k, v in now.items() if k != "*"}
+        if now != snap:
+            out.append({"object": name, "kind": what, "before": snap, "after": now})
+    return out
 
 
 def _field(env, name):
@@ -1229,19 +1500,42 @@ def exec_op(env, op):
         f = env["fields"][op["field"]]
         f._data_full = rnd_data(op["seed"], f._data_full.shape)
         return None
+    if k == "shared":
+        # an argument OBJECT of the caller that several later requests are given (the same dict object every time)
+        if op["what"] == "user_funcs":
+            obj = {n: USER_FUNCS[n] for n in op["value"]}
+        elif op["what"] == "consts":
+            obj = {n: (env["fields"][v[1]] if v[0] == "field" else dec(v)) for n, v in op["value"].items()}
+        elif op["what"] == "bc":
+            obj = dec_bc(op["value"])
+        else:
+            raise ValueError(op["what"])
+        env.setdefault("shared", {})[op["name"]] = obj
+        env.setdefault("shared_snap", {})[op["name"]] = (op["what"], snapshot(obj))
+        return None
     if k == "pde":
         consts = {}
         for name, v in op.get("consts", {}).items():
             consts[name] = env["fields"][v[1]] if v[0] == "field" else dec(v)
-        env["pdes"][op["name"]] = pde.PDE(op["rhs"], bc=dec_bc(op["bc"]) if isinstance(op["bc"], dict) else op["bc"], consts=consts)
+        if op.get("consts_shared"):
+            consts = env["shared"][op["consts_shared"]]
+        uf = op.get("user_funcs")
+        user_funcs = env["shared"][uf] if isinstance(uf, str) else {n: USER_FUNCS[n] for n in uf} if uf else None
+        bc = env["shared"][op["bc_shared"]] if op.get("bc_shared") else dec_bc(op["bc"]) if isinstance(op["bc"], dict) else op["bc"]
+        env["pdes"][op["name"]] = pde.PDE(op["rhs"], bc=bc, consts=consts, user_funcs=user_funcs)
         return None
     # ---- queries ----
     if k == "make_operator":
         grid = env["grids"][op["grid"]]
         info = get_backend("numba").get_operator_info(grid, op["operator"])
-        fn = grid.make_operator(op["operator"], dec_bc(op["bc"]), backend=op["backend"], dtype=dec(op.get("dtype", ["none"])),
-                                **{kk: dec(v) for kk, v in op.get("kwargs", [])})
-        return [lst(x) for x in apply_op(fn, grid, info, op["seed"])]
+        kw = {kk: dec(v) for kk, v in op.get("kwargs", [])}
+        fn = grid.make_operator(op["operator"], dec_bc(op["bc"]), backend=op["backend"], dtype=dec(op.get("dtype", ["none"])), **kw)
+        outs = apply_op(fn, grid, info, op["seed"])
+        if has_normal(op["bc"]) and grid.dim > 1:
+            # cells that neither the data nor the conditions determine are reported as 0 (judged by the pairs leg: KEY_UNINIT)
+            m = defined_mask(grid, info, grid.get_boundary_conditions(dec_bc(op["bc"]), rank=info.rank_in), kw)
+            outs = [np.where(m, x, 0.0) for x in outs]
+        return [lst(x) for x in outs]
     if k == "nobc":
         grid = env["grids"][op["grid"]]
         info = get_backend("numba").get_operator_info(grid, op["operator"])
@@ -1301,6 +1595,14 @@ def exec_op(env, op):
         st = _field(env, op["state"])
         res = eq.solve(st, t_range=op["t_range"], dt=op["dt"], tracker=None, backend=op["backend"], solver=op.get("solver", "euler"))
         return lst(res.data)
+    if k == "evaluate":
+        from pde.tools.expressions import evaluate
+        uf = op.get("user_funcs")
+        user_funcs = env["shared"][uf] if isinstance(uf, str) else {n: USER_FUNCS[n] for n in uf} if uf else None
+        bc = env["shared"][op["bc_shared"]] if op.get("bc_shared") else dec_bc(op["bc"]) if isinstance(op["bc"], dict) else op["bc"]
+        consts = env["shared"][op["consts_shared"]] if op.get("consts_shared") else None
+        return lst(evaluate(op["expr"], {"c": env["fields"][op["state"]]}, bc=bc, user_funcs=user_funcs, consts=consts,
+                            backend=op.get("backend", "numpy")).data)
     if k == "diffusion":
         st = _field(env, op["state"])
         eq = pde.DiffusionPDE(diffusivity=op["diffusivity"], bc=dec_bc(op["bc"]))
@@ -1333,11 +1635,16 @@ def hist_exec(history, fresh):
                 return "SETUP-EXC:" + exc_class(e) + ":" + str(e)[:80]
         if i == last:
             result = r
+    mut = mutated_args(env)
+    if mut:
+        # py-pde wrote into an argument object of the caller: reported together with the result (never equal to a plain result)
+        return {"ARG-MUTATED": mut, "result": result}
     return result
 
 
-def forked(history, fresh):
-    """run in a child forked from this process (which must not have used py-pde yet)"""
+def forked_call(fn, *args):
+    """fn(*args) in a child forked from this process; 'CRASH:...' if the child dies or raises something that is not an
+    Exception (a segfault of the real code must become a result, not the end of the check)"""
     r, w = os.pipe()
     pid = os.fork()
     if pid == 0:
@@ -1345,7 +1652,9 @@ def forked(history, fresh):
         try:
             os.close(r)
             try:
-                res = hist_exec(history, fresh)
+                res = fn(*args)
+            except Exception:
+                res = "EXC: " + traceback.format_exc()[-1500:]
             except BaseException:
                 res = "CRASH:" + traceback.format_exc()[-600:]
             with os.fdopen(w, "wb") as fh:
@@ -1357,10 +1666,18 @@ def forked(history, fresh):
     os.close(w)
     with os.fdopen(r, "rb") as fh:
         data = fh.read()
-    os.waitpid(pid, 0)
+    _, status = os.waitpid(pid, 0)
     if not data:
-        return "CRASH:no-output"
+        return f"CRASH:no-output (wait status {status})"
     return pickle.loads(data)
+
+
+def forked(history, fresh):
+    """run in a child forked from this process (which must not have used py-pde yet)"""
+    res = forked_call(hist_exec, history, fresh)
+    if isinstance(res, str) and res.startswith("EXC: "):
+        return "CRASH:" + res[-600:]  # hist_exec catches every Exception of the real code itself
+    return res
 
 
 def same_result(a, b, tol=1e-9):
@@ -1380,19 +1697,74 @@ def same_result(a, b, tol=1e-9):
         return False
 
 
+def _setup_exc(x):
+    return isinstance(x, str) and x.startswith("SETUP-EXC")
+
+
+def _crash(x):
+    return isinstance(x, str) and x.startswith("CRASH")
+
+
+def _exc_class_only(x):
+    """'SETUP-EXC:Class:message' -> 'SETUP-EXC:Class' (messages may contain addresses)"""
+    return ":".join(x.split(":")[:2]) if isinstance(x, str) and x.startswith("SETUP-EXC") else x
+
+
+def _unwrap(x):
+    return x["result"] if isinstance(x, dict) and "ARG-MUTATED" in x else x
+
+
+def _mutated(x):
+    return isinstance(x, dict) and "ARG-MUTATED" in x
+
+
+def hist_value_same(full, fresh):
+    return same_result(_exc_class_only(_unwrap(full)), _exc_class_only(_unwrap(fresh)))
+
+
+def hist_same(full, fresh):
+    """the property holds on this history: same value, and no argument object of the caller was written to"""
+    return hist_value_same(full, fresh) and not _mutated(full) and not _mutated(fresh)
+
+
+def hist_unjudged(full, fresh):
+    """a history is not judged (malformed) only if a state-defining operation fails in the SAME way with and without the
+    earlier queries, or if both runs crash; a crash or a setup error on one side only is a difference like any other"""
+    if _setup_exc(fresh) and _setup_exc(full) and _exc_class_only(full) == _exc_class_only(fresh):
+        return "setup:" + _exc_class_only(fresh)[10:]
+    if _crash(full) and _crash(fresh):
+        return "CRASH-both:" + str(full)[:60]
+    return None
+
+
+def hist_class(full, fresh):
+    """None (holds) | 'unjudged' | 'one-sided' (crash / setup error on one side) | 'value' (the last result differs) |
+    'mutation' (same value, but an argument object of the caller was written to)"""
+    if hist_unjudged(full, fresh) is not None:
+        return "unjudged"
+    if hist_same(full, fresh):
+        return None
+    if _crash(full) or _crash(fresh) or _setup_exc(full) or _setup_exc(fresh):
+        return "one-sided"
+    return "value" if not hist_value_same(full, fresh) else "mutation"
+
+
 def hist_worker(history):
     """history in one interpreter vs last call in a fresh one (both forked from this clean process);
-    on a difference the history is shrunk"""
+    on a difference the history is shrunk (keeping the kind of the failure)"""
     import pde  # noqa: F401  (only imported - nothing of py-pde has been called in this process)
     full = forked(history, False)
     fresh = forked(history, True)
-    out = {"full": full, "fresh": fresh, "same": same_result(full, fresh)}
-    if isinstance(fresh, str) and fresh.startswith(("SETUP-EXC", "CRASH")) or isinstance(full, str) and full.startswith("CRASH"):
-        out["malformed"] = str(fresh if isinstance(fresh, str) else full)[:120]
-        out["same"] = True if not (isinstance(full, str) and full.startswith("CRASH")) or full == fresh else out["same"]
+    cls = hist_class(full, fresh)
+    out = {"full": full, "fresh": fresh, "same": cls is None, "class": cls}
+    if cls == "unjudged":
+        out["malformed"] = hist_unjudged(full, fresh)[:120]
+        out["same"] = True
         return out
-    if not out["same"]:
-        # greedy shrinking: drop operations (never the last) while the difference persists
+    if cls == "one-sided":
+        out["one_sided"] = True
+    if cls is not None:
+        # greedy shrinking: drop operations (never the last) while the same kind of failure persists
         h = copy.deepcopy(history)
         budget = 40
         changed = True
@@ -1405,11 +1777,22 @@ def hist_worker(history):
                 del cand["ops"][i]
                 budget -= 1
                 f1, f2 = forked(cand, False), forked(cand, True)
-                if not isinstance(f2, str) or not f2.startswith(("SETUP-EXC", "CRASH")):
-                    if not same_result(f1, f2):
-                        h, changed = cand, True
-                        out["full"], out["fresh"] = f1, f2
+                if hist_class(f1, f2) == cls:
+                    h, changed = cand, True
+                    out["full"], out["fresh"] = f1, f2
         out["shrunk"] = h
+    return out
+
+
+def hist_worker_noshrink(history):
+    """as `hist_worker` but without the shrinking (replay)"""
+    import pde  # noqa: F401
+    full = forked(history, False)
+    fresh = forked(history, True)
+    cls = hist_class(full, fresh)
+    out = {"full": full, "fresh": fresh, "same": cls is None, "class": cls}
+    if cls == "unjudged":
+        out["malformed"] = hist_unjudged(full, fresh)[:120]
     return out
 
 
@@ -1465,11 +1848,13 @@ def bc_for(rng, gd, rank, like=None):
 
 
 def vary_bc(rng, gd, rank, bc):
-    """a specification that coincides with `bc` in some attributes"""
-    req = {"grid": gd, "op": "laplace", "rank": rank, "bc": copy.deepcopy(bc), "dtype": ["none"], "kwargs": [], "korder": 0}
+    """a specification that coincides with `bc` in some attributes.  The collision variants (`neg12`, `int_float`,
+    `same_bytes`, `signed_zero`) put the colliding partner INTO `bc` (in place: the operations of the history that were
+    built from `bc` refer to this very dictionary), so the earlier request really carries -1 / the int / the int bits."""
+    req = {"grid": copy.deepcopy(gd), "op": "laplace", "rank": rank, "bc": bc, "dtype": ["none"], "kwargs": [], "korder": 0}
     for _ in range(10):
-        v = rng.choice(["same", "class", "swap_sides", "value_num", "neg12", "int_float", "same_bytes", "const", "flip", "normal", "homog"])
-        b = apply_variant(rng, copy.deepcopy(req), v)
+        v = rng.choice(["same", "class", "swap_sides", "value_num", "neg12", "int_float", "same_bytes", "signed_zero", "const", "flip", "normal", "homog"])
+        b = apply_variant(rng, req, v)
         if b is not None:
             return b["bc"], v
     return copy.deepcopy(bc), "same"
@@ -1493,7 +1878,10 @@ def gen_history(rng, hist, jit=False):
         gi = 0 if i == 0 else rng.choice([0, 0, 1])
         ops.append({"op": "field", "name": f"f{i}", "grid": gi, "rank": 0, "seed": seed()})
         fields.append((f"f{i}", gi))
-    theme = rng.choice(["operator", "operator", "ghost", "interp", "interp", "pde", "pde", "pde_const", "solve", "field_op", "nobc", "diffusion"])
+    theme = rng.choice(["operator", "operator", "ghost", "interp", "interp", "pde", "pde", "pde_const", "solve", "field_op", "nobc", "diffusion",
+                        "pde_coll", "pde_shared", "pde_shared", "pde_grids", "pde_grids"])
+    if theme in ("interp", "pde", "pde_const") and not jit and rng.random() < 0.15:
+        ops[0]["complex"] = True  # a complex-valued state/field (the dtype is part of `state.attributes` and of the operator keys)
     hist("history-theme", theme + ("/jit" if jit else ""))
     backends = ["numba", "numba", "scipy"] if not jit else ["numba"]
 
@@ -1615,6 +2003,138 @@ def gen_history(rng, hist, jit=False):
                             "solver": rng.choice(["euler", "runge-kutta"] if not jit else ["euler"])})
             else:
                 ops.append({"op": rng.choice(["rate", "rhs"]), "pde": pname, "state": st, "backend": rng.choice(["numpy", "numba"])})
+    elif theme == "pde_coll":
+        # a PDE with two variables on a FieldCollection state: `PDE._cache` is keyed by the attributes of the state
+        # (a collection and a single field, collections of different composition) and per backend
+        gi = fields[0][1]
+        gd = grids[gi]
+        ops.append({"op": "field", "name": "g0", "grid": gi, "rank": 0, "seed": seed()})
+        ops.append({"op": "field", "name": "g1", "grid": gi, "rank": 0, "seed": seed()})
+        ops.append({"op": "collection", "name": "s0", "fields": ["g0", "g1"], "copy": True})
+        ops.append({"op": "collection", "name": "s1", "fields": ["g1", "g0"], "copy": True})
+        bc = gen_bc(rng, gd, 0)
+        rhs2 = rng.choice([{"u": "laplace(u) - v", "v": "u + laplace(v)"}, {"u": "laplace(v)", "v": "gradient_squared(u) - v"},
+                           {"u": "v", "v": "laplace(u + v)"}])
+        ops.append({"op": "pde", "name": "p0", "rhs": rhs2, "bc": bc, "consts": {}})
+        be1, be2 = (rng.choice(["numpy", "numba"]) for _ in range(2))
+        if jit:
+            be1 = "numpy"  # at most one compilation of the two-variable rhs per compiled history
+        ops.append({"op": rng.choice(["rate", "rhs"]), "pde": "p0", "state": "s0", "backend": be1})
+        for _ in range(rng.randint(0, 2)):
+            r = rng.random()
+            if r < 0.4:
+                ops.append({"op": "write", "field": rng.choice(["g0", "g1"]), "seed": seed()})
+            elif r < 0.7:
+                # the one-variable twin of the PDE on a member field
+                ops.append({"op": "pde", "name": f"q{len(ops)}", "rhs": {"u": "laplace(u)"}, "bc": bc, "consts": {}})
+                ops.append({"op": "rate", "pde": ops[-1]["name"], "state": "g0", "backend": "numpy"})
+            else:
+                ops.append(filler())
+        r = rng.random()
+        if r < 0.4:
+            pname, st = "p0", rng.choice(["s0", "s1"])
+        else:
+            bc2, v = vary_bc(rng, gd, 0, bc)
+            hist("history-variant", v)
+            ops.append({"op": "pde", "name": "p1", "rhs": rhs2, "bc": bc2, "consts": {}})
+            pname, st = "p1", rng.choice(["s0", "s1"])
+        if rng.random() < 0.25 and not jit:
+            ops.append({"op": "solve", "pde": pname, "state": st, "t_range": 0.02, "dt": 0.01, "backend": be2, "solver": "euler"})
+        else:
+            ops.append({"op": rng.choice(["rate", "rhs"]), "pde": pname, "state": st, "backend": be2})
+    elif theme == "pde_shared":
+        # several requests are given the SAME argument objects (a dict of helper functions, a dict of constants, a
+        # boundary dict), as a caller scanning boundary conditions or parameters does
+        f, gi = fields[0]
+        gd = grids[gi]
+        bc = gen_bc(rng, gd, 0)
+        uses = rng.choice([["u"], ["u"], ["u", "k"], ["b"], ["u", "b"], ["k"]])
+        rhs = rng.choice(["laplace(c) + f(c)", "f(laplace(c))", "gradient_squared(c) + g(c)", "laplace(c) - g(c) + f(c)"]) if "u" in uses \
+            else rng.choice(["laplace(c) - c", "gradient_squared(c) + laplace(c)"])
+        if "k" in uses:
+            rhs = "k * (" + rhs + ")"
+        common = {}
+        if "u" in uses:
+            ops.append({"op": "shared", "name": "u0", "what": "user_funcs", "value": ["f", "g"] if rng.random() < 0.5 else [n for n in ("f", "g") if n + "(" in rhs]})
+            common["user_funcs"] = "u0"
+        if "k" in uses:
+            if rng.random() < 0.5:
+                ops.append({"op": "field", "name": "fk", "grid": gi, "rank": 0, "seed": seed()})
+                kval = ["field", "fk"]
+            else:
+                kval = rng.choice([["f", 0.5], ["i", -1], ["f", 2.0]])
+            ops.append({"op": "shared", "name": "k0", "what": "consts", "value": {"k": kval}})
+            common["consts_shared"] = "k0"
+        if "b" in uses:
+            ops.append({"op": "shared", "name": "b0", "what": "bc", "value": bc})
+            common["bc_shared"] = "b0"
+        be = lambda: rng.choice(["numpy", "numba", "numba"])
+
+        def query(pname):
+            r = rng.random()
+            if r < 0.15 and not jit:
+                return {"op": "solve", "pde": pname, "state": f, "t_range": 0.02, "dt": 0.01, "backend": be(), "solver": "euler"}
+            return {"op": "rate" if r < 0.45 else "rhs", "pde": pname, "state": f, "backend": be()}
+        ops.append(dict({"op": "pde", "name": "p0", "rhs": {"c": rhs}, "bc": bc, "consts": {}}, **common))
+        ops.append(query("p0"))
+        for _ in range(rng.randint(0, 2)):
+            ops.append(filler() if rng.random() < 0.6 else {"op": "write", "field": f, "seed": seed()})
+        # the second request: another condition / another expression / a plain operator - with the same objects
+        r = rng.random()
+        if r < 0.6 or "b" in uses:
+            bc2, v = (bc, "same") if "b" in uses else vary_bc(rng, gd, 0, bc)
+            hist("history-variant", "shared:" + v)
+            rhs2 = rhs if "b" not in uses or rng.random() < 0.4 else rhs.replace("laplace(c)", "laplace(c) + c")
+            ops.append(dict({"op": "pde", "name": "p1", "rhs": {"c": rhs2}, "bc": bc2, "consts": {}}, **common))
+            ops.append(query("p1"))
+        elif "u" in uses:
+            bc2, v = vary_bc(rng, gd, 0, bc)
+            hist("history-variant", "shared-evaluate:" + v)
+            ex = rhs[len("k * ("):-1] if "k" in uses else rhs
+            ops.append({"op": "evaluate", "expr": ex, "state": f, "bc": bc2, "user_funcs": "u0", "backend": rng.choice(["numpy", "numba"])})
+        else:
+            ops.append(dict({"op": "pde", "name": "p1", "rhs": {"c": rhs}, "bc": bc, "consts": {}}, **common))
+            ops.append(query("p1"))
+    elif theme == "pde_grids":
+        # ONE PDE object asked for states on grids that differ only in their class (equal shape, bounds, periodicity):
+        # polar / spherical, 2d Cartesian / cylindrical - in both orders
+        ops = []
+        if rng.random() < 0.55 or jit:
+            n = rng.randint(2, 8)
+            r0 = rng.choice([0.0, 0.0, 0.5, 1.0])
+            R = r0 + rng.choice([0.5, 1.0, 0.25]) * n
+            ga = {"cls": "PolarSymGrid", "shape": [n], "bounds": [[r0, R]], "periodic": [False]}
+            gb = dict(copy.deepcopy(ga), cls="SphericalSymGrid")
+        else:
+            nr, nz = rng.randint(2, 4), rng.randint(2, 4)
+            R, z0 = rng.choice([1.0, 2.0, 0.5]) * nr, rng.choice([0.0, -1.0])
+            pz = rng.random() < 0.4
+            ga = {"cls": "CylindricalSymGrid", "shape": [nr, nz], "bounds": [[0.0, R], [z0, z0 + rng.choice([0.5, 1.0]) * nz]], "periodic": [False, pz]}
+            gb = dict(copy.deepcopy(ga), cls="CartesianGrid")
+        if rng.random() < 0.5:
+            ga, gb = gb, ga
+        grids[0], grids[1] = ga, gb
+        sd = seed()
+        ops.append({"op": "field", "name": "f0", "grid": 0, "rank": 0, "seed": sd})
+        ops.append({"op": "field", "name": "f1", "grid": 1, "rank": 0, "seed": sd})
+        fields = [("f0", 0), ("f1", 1)]
+        bc = rng.choice(["auto_periodic_neumann", "auto_periodic_dirichlet", "auto_periodic_neumann"])
+        if rng.random() < 0.4 and not any(ga["periodic"]):
+            side = {"type": rng.choice(["value", "derivative"]), "value": gen_number(rng)}
+            bc = {k2: copy.deepcopy(side) for ax in axes_of(ga) for k2 in (ax + "-", ax + "+")}
+        rhs = rng.choice([{"c": "laplace(c)"}, {"c": "laplace(c) - c"}, {"c": "gradient_squared(c) + laplace(c)"}, {"c": "divergence(gradient(c))"}])
+        ops.append({"op": "pde", "name": "p0", "rhs": rhs, "bc": bc, "consts": {}})
+        be = lambda: rng.choice(["numpy", "numba"])
+
+        def query(st):
+            r = rng.random()
+            if r < 0.2 and not jit:
+                return {"op": "solve", "pde": "p0", "state": st, "t_range": 0.002, "dt": 0.001, "backend": be(), "solver": "euler"}
+            return {"op": "rate" if r < 0.6 else "rhs", "pde": "p0", "state": st, "backend": be()}
+        ops.append(query("f0"))
+        for _ in range(rng.randint(0, 1)):
+            ops.append(filler())
+        ops.append(query("f1"))
     elif theme == "field_op":
         f, gi = fields[0]
         gd = grids[gi]
@@ -1693,6 +2213,11 @@ def real_heap(case):
             v = eq.evolution_rate(state).data[0]
             read.append(str(int(round(float(v)))))
             events.append(["rate"])
+        elif e[0] == "rate_jit":
+            # the compiled rate, asked for again (only meaningful with the JIT enabled: leg heap:jit)
+            v = eq.make_pde_rhs(state, backend="numba")(state.data.copy(), 0.0)[0]
+            read.append(str(int(round(float(v)))))
+            events.append(["rate_jit"])
     return {"read": read, "events": events}
 
 
@@ -1700,21 +2225,168 @@ def heap_worker(case):
     return real_heap(case)
 
 
+def heap_worker_forked(case):
+    import pde  # noqa: F401
+    return forked_call(real_heap, case)
+
+
+def gen_heap_jit_case(rng, hist):
+    """short heap histories around the COMPILED rate (every `rate_jit` after a change of the array object - and, once
+    finding E is repaired, after a write - compiles again: a few seconds each)"""
+    events = [["rate_jit"]] if rng.random() < 0.7 else []
+    tok = itertools.count(2)
+    n_jit = len(events)
+    for _ in range(rng.randint(2, 5)):
+        r = rng.random()
+        if r < 0.35:
+            events.append(["write", str(next(tok))])
+        elif r < 0.45:
+            events.append(["relink", rng.choice([1, 1, 2])])
+        elif r < 0.55:
+            events.append(["assign_new", str(next(tok))])
+        elif r < 0.6:
+            events.append(["assign_same"])
+        elif r < 0.7:
+            events.append(["rate"])
+        elif n_jit < 3:
+            events.append(["rate_jit"])
+            n_jit += 1
+    if events[-1][0] != "rate_jit" and n_jit < 3:
+        events.append(["rate_jit"])
+    for e in events:
+        hist("heap-jit-event", e[0])
+    return {"kind": "heap", "jit": True, "n": rng.choice([2, 3]), "init": "1", "events": events}
+
+
+def fixed_heap_jit():
+    """always run: finding E (write in place between two compiled rates), finding C under the JIT"""
+    return [{"kind": "heap", "jit": True, "n": 4, "init": "1", "events": [["rate_jit"], ["write", "5"], ["rate_jit"]]},
+            {"kind": "heap", "jit": True, "n": 3, "init": "1", "events": [["rate_jit"], ["relink", 1], ["write", "7"], ["rate_jit"], ["rate"]]}]
+
+
+def real_heapdep_jit(case):
+    """the heap-dependence monitor on the COMPILED operator (the pairs leg runs under NUMBA_DISABLE_JIT=1, where the
+    Python version of the wrapper allocates): freed blocks are left behind by a compiled function, because compiled
+    code allocates through numba's runtime"""
+    import numba as nb
+    quiet()
+    try:
+        grid, backend, info, kw = build_req(case["req"])
+        op = backend.make_operator(grid, info, **kw)
+        op(rnd_data(1, (grid.dim,) * info.rank_in + grid.shape))  # compile first (compilation allocates as well)
+    except Exception as e:  # malformed stream: the request is rejected
+        return {"error": exc_class(e)}
+
+    @nb.njit
+    def poison(shape, fill):
+        s = 0.0
+        for _ in range(6):
+            a = np.full(shape, fill)
+            s += a.flat[0]
+        return s
+    hd = heap_dependence(op, grid, info, case["seed"], poison=lambda shape, dtype, fill: poison(shape, fill))
+    out = {"undefined_cells": 0}
+    mb = True
+    if has_normal(case["req"]["bc"]):
+        mb = defined_mask(grid, info, kw["bcs"], {k: dec(v) for k, v in case["req"]["kwargs"]}, backend)
+        out["undefined_cells"] = int(mb.size - np.count_nonzero(mb))
+    if hd is not None:
+        inside = bool(mb is not True and not np.any(hd["cells"] & np.broadcast_to(mb, hd["cells"].shape)))
+        out["heap_dep"] = {"first": lst(hd["first"]), "second": lst(hd["second"]),
+                           "cells_differing": np.argwhere(hd["cells"]).tolist()[:12], "n_cells_differing": int(hd["cells"].sum()),
+                           "only_in_cells_no_condition_determines": inside}
+    return out
+
+
+def fixed_heapdep_jit():
+    g2 = {"cls": "UnitGrid", "shape": [4, 3], "bounds": [[0.0, 4.0], [0.0, 3.0]], "periodic": [False, False]}
+    nv = {"type": "normal_value", "value": ["f", 1.0]}
+    return [{"kind": "heapdep", "seed": 7, "req": {
+        "grid": g2, "op": "vector_laplace", "rank": 1, "dtype": ["none"], "kwargs": [], "korder": 0,
+        "bc": {"x-": nv, "x+": nv, "y-": {"type": "value", "value": ["f", 0.5]}, "y+": {"type": "derivative", "value": ["f", 0.0]}}}}]
+
+
+def gen_heapdep_jit(rng, hist):
+    """a random request on a 2d Cartesian grid with an operator of rank >= 1 (compiled: a few seconds each)"""
+    for _ in range(200):
+        r = gen_req(rng)
+        if r["rank"] >= 1 and len(r["grid"]["shape"]) == 2 and r["grid"]["cls"] in ("UnitGrid", "CartesianGrid"):
+            hist("heapdep-jit", r["op"] + ("/normal" if has_normal(r["bc"]) else ""))
+            return {"kind": "heapdep", "seed": rng.randrange(1 << 30), "req": r}
+    return fixed_heapdep_jit()[0]
+
+
+def judge_heapdep_jit(ctx, cases, results):
+    for c, r in zip(cases, results):
+        ctx.count(c, nontrivial=True, leg="pairs:req:jit")
+        if isinstance(r, str):
+            died(ctx, "pairs:req:jit", c, r, "NumbaBackend.make_operator")
+            continue
+        if "error" in r:
+            ctx.hist("malformed", "heapdep-jit:" + r["error"][:40])
+            continue
+        ctx.monitor_evals += 1
+        hd = r.get("heap_dep")
+        if hd:
+            key = KEY_UNINIT if hd["only_in_cells_no_condition_determines"] and has_normal(c["req"]["bc"]) else \
+                dict(call_site="NumbaBackend.make_operator", symptom="result depends on the contents of freed memory")
+            ctx.monitor_fail("pairs:req:jit", c, dict(hd, symptom="heap_dependence"), {"same_result_after_any_allocation_history": True},
+                             f"req (compiled): {key['symptom']}", key=key)
+
+
+def jit_worker(item):
+    """one process pool for everything that needs the JIT: compiled histories, compiled heap histories and the
+    heap-dependence monitor on compiled operators"""
+    if item.get("kind") == "heap":
+        return heap_worker_forked(item)
+    if item.get("kind") == "heapdep":
+        import pde  # noqa: F401
+        return forked_call(real_heapdep_jit, item)
+    return hist_worker(item)
+
+
 # ==========================================================================================
 def last_touches_cache(h):
     """non-triviality of a history: an earlier operation filled a cache the last call consults"""
     ops = h["ops"]
     last = ops[-1]
-    fam = {"make_operator": "op", "field_op": "op", "rate": "op", "rhs": "op", "solve": "op", "diffusion": "op", "ghost_setter": "ghost",
+    fam = {"make_operator": "op", "field_op": "op", "rate": "op", "rhs": "op", "solve": "op", "diffusion": "op", "evaluate": "op", "ghost_setter": "ghost",
            "interpolate": "interp", "nobc": "nobc"}
     return any(o["op"] in QUERY_OPS and fam.get(o["op"]) == fam.get(last["op"]) for o in ops[:-1])
 
 
-def history_key(h, res):
-    """which repaired defect a failing history exhibits (for known_findings matching)"""
+def frozen_const_pattern(h):
+    """the last query goes through the numba backend of a PDE with a field-valued constant that was written in place
+    after an earlier numba query of the same PDE (only meaningful when the history ran compiled)"""
+    ops = h["ops"]
+    last = ops[-1]
+    if last["op"] not in ("rhs", "solve") or last.get("backend") != "numba":
+        return False
+    pdes = {o["name"]: o for o in ops if o["op"] == "pde"}
+    p = pdes.get(last.get("pde"))
+    if not p:
+        return False
+    kfields = {v[1] for v in p.get("consts", {}).values() if v[0] == "field"}
+    seen_query = False
+    for o in ops[:-1]:
+        if o["op"] in ("rhs", "solve") and o.get("pde") == last["pde"] and o.get("backend") == "numba":
+            seen_query = True
+        elif seen_query and o["op"] == "write" and o["field"] in kfields:
+            return True
+    return False
+
+
+def history_key(h, res, mode="S"):
+    """which defect a failing history exhibits (for known_findings matching)"""
     ops = h["ops"]
     last = ops[-1]
     kinds = [o["op"] for o in ops]
+    if isinstance(res, dict) and res.get("one_sided"):
+        return dict(KEY_CRASH, call_site="history:" + last["op"])
+    if isinstance(res, dict) and res.get("class") == "mutation":
+        return {"call_site": "history:" + last["op"], "symptom": "an argument object of the caller is mutated (the value is not affected)"}
+    if mode == "J" and frozen_const_pattern(h):
+        return KEY_FROZEN
     if last["op"] == "interpolate" and kinds[:-1].count("interpolate") >= 1 and any(k in kinds for k in ("collection", "assign_full")):
         return KEY_F2
     if "bc" in last and isinstance(last["bc"], dict):
@@ -1742,39 +2414,68 @@ def run_histories(ctx):
     res = run_many("harness.c04", "hist_worker", hs, env={"NUMBA_DISABLE_JIT": "1"}, procs=16)
     ctx.extra["t_hist_S"] = [round(time.time() - t0, 1), round(_cpu() - c0, 1)]
     t0, c0 = time.time(), _cpu()
-    hj = [gen_history(rng, ctx.hist, jit=True) for _ in range(n_j)] + fixed_histories()[:2]
-    resj = run_many("harness.c04", "hist_worker", hj, env={"NUMBA_DISABLE_JIT": "0"}, procs=16)
+    hj = [gen_history(rng, ctx.hist, jit=True) for _ in range(n_j)] + fixed_histories()[:2] + fixed_histories_jit()
+    heapj = fixed_heap_jit() + [gen_heap_jit_case(rng, ctx.hist) for _ in range(ctx.budget(2, 20))]
+    depj = fixed_heapdep_jit() + [gen_heapdep_jit(rng, ctx.hist) for _ in range(ctx.budget(0, 10))]
+    # interleave so that every process gets its share of all kinds (quick: 16 items for 16 processes)
+    items = [x for tpl in itertools.zip_longest(hj, heapj, depj) for x in tpl if x is not None]
+    res_items = run_many("harness.c04", "jit_worker", items, env={"NUMBA_DISABLE_JIT": "0"}, procs=16)
+    by_id = {id(x): r for x, r in zip(items, res_items)}
+    resj = [by_id[id(h)] for h in hj]
+    judge_heap_jit(ctx, heapj, [by_id[id(c)] for c in heapj])
+    judge_heapdep_jit(ctx, depj, [by_id[id(c)] for c in depj])
     ctx.extra["t_hist_J"] = [round(time.time() - t0, 1), round(_cpu() - c0, 1)]
     for mode, hl, rl in (("S", hs, res), ("J", hj, resj)):
         for h, r in zip(hl, rl):
-            if isinstance(r, str):
-                raise RuntimeError(f"history worker failed: {r}")
             leg = f"histories:{mode}"
+            if isinstance(r, str):
+                ctx.count(h, nontrivial=False, leg=leg + ":worker-exception")
+                died(ctx, leg, h, r, "history")
+                continue
             if "malformed" in r:
                 ctx.hist("malformed", r["malformed"][:50])
+                if r["malformed"].startswith("CRASH-both"):
+                    ctx.note(f"history crashes with and without the earlier queries (not judged): {json.dumps(h)[:300]}")
                 ctx.count(h, nontrivial=False, leg=leg + ":malformed")
                 continue
             ctx.count(h, nontrivial=last_touches_cache(h) and not isinstance(r["fresh"], str), leg=leg)
             ctx.hist("history-last", h["ops"][-1]["op"] + (":" + r["fresh"][:30] if isinstance(r["fresh"], str) else ""))
             ctx.hist("history-len", len(h["ops"]))
+            for o in h["ops"]:
+                if o["op"] in ("rate", "rhs", "solve", "diffusion", "make_operator", "field_op", "nobc", "ghost_setter"):
+                    ctx.hist("history-query-backend", f"{o['op']}:{o.get('backend')}")
             ctx.monitor_evals += 1
             if not r["same"]:
                 hh = r.get("shrunk", h)
-                ctx.monitor_fail(leg, hh, {"last_result_in_history": r["full"]}, {"same_call_in_fresh_interpreter": r["fresh"]},
-                                 "history: " + str(history_key(hh, r).get("symptom")), key=history_key(hh, r))
+                key = history_key(hh, r, mode)
+                ctx.monitor_fail(leg, hh, {"last_result_in_history": r["full"], "failure_class": r.get("class")},
+                                 {"same_call_in_fresh_interpreter": r["fresh"]}, "history: " + str(key.get("symptom")), key=key)
     # a subset in really new interpreters (one history per process), validating the fork shortcut
+    from harness.common.lean import BrokenCheck
     t0, c0 = time.time(), _cpu()
-    sub = [h for h, r in zip(hs, res) if "malformed" not in r][:n_new]
+    sub = [h for h, r in zip(hs, res) if isinstance(r, dict) and "malformed" not in r and r["same"]][:n_new]
     for start in range(0, len(sub), 8):
         chunk = sub[start:start + 8]
-        full = run_many("harness.c04", "hist_exec_full", chunk, env={"NUMBA_DISABLE_JIT": "1"}, procs=16)
-        fresh = run_many("harness.c04", "hist_exec_fresh", chunk, env={"NUMBA_DISABLE_JIT": "1"}, procs=16)
+        try:
+            full = run_many("harness.c04", "hist_exec_full", chunk, env={"NUMBA_DISABLE_JIT": "1"}, procs=16)
+            fresh = run_many("harness.c04", "hist_exec_fresh", chunk, env={"NUMBA_DISABLE_JIT": "1"}, procs=16)
+        except BrokenCheck:
+            # an interpreter died: find out which history does it (one at a time)
+            full, fresh = [], []
+            for h in chunk:
+                for lst_, fn in ((full, "hist_exec_full"), (fresh, "hist_exec_fresh")):
+                    try:
+                        lst_.append(run_many("harness.c04", fn, [h], env={"NUMBA_DISABLE_JIT": "1"}, procs=1)[0])
+                    except BrokenCheck as e:
+                        lst_.append("CRASH:new-interpreter:" + str(e)[-200:])
         for h, a, b in zip(chunk, full, fresh):
             ctx.count(dict(h, new_interpreter=True), nontrivial=last_touches_cache(h), leg="histories:new-interpreter")
             ctx.monitor_evals += 1
-            if not same_result(a, b):
-                ctx.monitor_fail("histories:new-interpreter", h, {"last_result_in_history": a}, {"same_call_in_fresh_interpreter": b},
-                                 "history: " + str(history_key(h, None).get("symptom")), key=history_key(h, None))
+            if not hist_same(a, b) or _crash(a) or (isinstance(a, str) and a.startswith("EXC: ")):
+                # the forked run of this history agreed: a difference (or a dead interpreter) here is one more failure
+                key = history_key(h, {"one_sided": _crash(a) or _crash(b), "class": hist_class(a, b)}, "S")
+                ctx.monitor_fail("histories:new-interpreter", h, {"last_result_in_history": a, "failure_class": hist_class(a, b)}, {"same_call_in_fresh_interpreter": b},
+                                 "history: " + str(key.get("symptom")), key=key)
     ctx.extra["t_hist_new"] = [round(time.time() - t0, 1), round(_cpu() - c0, 1)]
 
 
@@ -1814,6 +2515,28 @@ def fixed_histories():
         {"op": "collection", "name": "c0", "fields": ["f1"], "copy": False},
         {"op": "write", "field": "f1", "seed": 3},
         {"op": "rate", "pde": "p0", "state": "f0"}]})
+    # shared argument objects: two PDEs that differ in the kind of condition are given the same dict of helper functions
+    for be1, q2 in (("numba", {"op": "rhs", "pde": "p1", "state": "f0", "backend": "numba"}), ("numba", {"op": "rate", "pde": "p1", "state": "f0"}),
+                    ("numpy", {"op": "rhs", "pde": "p1", "state": "f0", "backend": "numba"})):
+        out.append({"grids": [g8, g8], "ops": [
+            {"op": "field", "name": "f0", "grid": 0, "rank": 0, "seed": 1},
+            {"op": "shared", "name": "u0", "what": "user_funcs", "value": ["f"]},
+            {"op": "pde", "name": "p0", "rhs": {"c": "laplace(c) + f(c)"}, "bc": v0, "consts": {}, "user_funcs": "u0"},
+            {"op": "rhs", "pde": "p0", "state": "f0", "backend": be1},
+            {"op": "pde", "name": "p1", "rhs": {"c": "laplace(c) + f(c)"}, "bc": d0, "consts": {}, "user_funcs": "u0"},
+            q2]})
+    # one PDE object, states on grids that differ only in their class (both orders; rate and compiled rhs)
+    gp = {"cls": "PolarSymGrid", "shape": [8], "bounds": [[0.0, 4.0]], "periodic": [False]}
+    gs = {"cls": "SphericalSymGrid", "shape": [8], "bounds": [[0.0, 4.0]], "periodic": [False]}
+    gc = {"cls": "CylindricalSymGrid", "shape": [3, 4], "bounds": [[0.0, 3.0], [0.0, 4.0]], "periodic": [False, False]}
+    gk = {"cls": "CartesianGrid", "shape": [3, 4], "bounds": [[0.0, 3.0], [0.0, 4.0]], "periodic": [False, False]}
+    for ga, gb, q in ((gp, gs, "rate"), (gs, gp, "rate"), (gp, gs, "rhs"), (gc, gk, "rate"), (gk, gc, "rhs")):
+        out.append({"grids": [ga, gb], "ops": [
+            {"op": "field", "name": "f0", "grid": 0, "rank": 0, "seed": 1},
+            {"op": "field", "name": "f1", "grid": 1, "rank": 0, "seed": 1},
+            {"op": "pde", "name": "p0", "rhs": {"c": "laplace(c)"}, "bc": "auto_periodic_neumann", "consts": {}},
+            {"op": q, "pde": "p0", "state": "f0", "backend": "numba"},
+            {"op": q, "pde": "p0", "state": "f1", "backend": "numba"}]})
     # D
     gm1 = {"cls": "CartesianGrid", "shape": [4], "bounds": [[-1.0, 1.0]], "periodic": [False]}
     gm2 = {"cls": "CartesianGrid", "shape": [4], "bounds": [[-2.0, 1.0]], "periodic": [False]}
@@ -1827,15 +2550,41 @@ def fixed_histories():
     return out
 
 
+def fixed_histories_jit():
+    """compiled only: finding E (in-place write to a field-valued constant between two requests of the compiled rhs)"""
+    g4 = {"cls": "UnitGrid", "shape": [4], "bounds": [[0.0, 4.0]], "periodic": [False]}
+    return [{"grids": [g4, g4], "ops": [
+        {"op": "field", "name": "f0", "grid": 0, "rank": 0, "seed": 1},
+        {"op": "field", "name": "f1", "grid": 0, "rank": 0, "seed": 2},
+        {"op": "pde", "name": "p0", "rhs": {"c": "k * c"}, "bc": "auto_periodic_neumann", "consts": {"k": ["field", "f1"]}},
+        {"op": "rhs", "pde": "p0", "state": "f0", "backend": "numba"},
+        {"op": "write", "field": "f1", "seed": 3},
+        {"op": "rhs", "pde": "p0", "state": "f0", "backend": "numba"}]}]
+
+
+def died(ctx, leg, case, r, call_site):
+    """a string instead of a result: the real code killed the interpreter ('CRASH:...': the property's monitor fails -
+    the call returns nothing at all, while nothing in the case is malformed) or raised where nothing may raise
+    ('EXC: ...': the tie for this case is broken)"""
+    if r.startswith("CRASH"):
+        ctx.monitor_evals += 1
+        ctx.monitor_fail(leg, case, {"symptom": "crash", "outcome": r[:300]}, {"a_result": True}, f"{leg}: the interpreter dies",
+                         key={"call_site": call_site, "symptom": "the interpreter dies (crash of the real code)"})
+    else:
+        ctx.disagree("worker-exception", case, "no exception", r[-600:], "unexpected exception while executing the real code for this case")
+
+
 def run_heap(ctx, batch):
     rng = ctx.rng
     n = ctx.budget(400, 5000)
     cases = [gen_heap_case(rng, ctx.hist) for _ in range(n)]
-    res = run_many("harness.c04", "heap_worker", cases, env={"NUMBA_DISABLE_JIT": "1"}, procs=16)
+    res = run_resilient("heap_worker", cases, {"NUMBA_DISABLE_JIT": "1"})
     pend = []
     for c, r in zip(cases, res):
         if isinstance(r, str):
-            raise RuntimeError(f"heap worker failed: {r}")
+            ctx.count(c, nontrivial=False, leg="heap:died")
+            died(ctx, "heap", c, r, "heap")
+            continue
         i = batch.add("c04.replay_heap", {"inval": True, "check": True, "init": c["init"], "events": r["events"]})
         pend.append((c, r, i))
     return pend
@@ -1861,10 +2610,79 @@ def judge_heap(ctx, pend, answers):
 
 
 def _first_bad_is_rate(c, ref, read):
-    reads = [e[0] for e in c["events"] if e[0] in ("interp", "rate")]
+    return _first_bad(c, ref, read) == "rate"
+
+
+def _first_bad(c, ref, read):
+    reads = [e[0] for e in c["events"] if e[0] in ("interp", "rate", "rate_jit")]
     for k, a, b in zip(reads, ref, read):
         if a != b:
-            return k == "rate"
+            return k
+    return None
+
+
+def judge_heap_jit(ctx, cases, results):
+    """compiled heap histories against the model.  The tie accepts exactly two derivations of the compiled rate: the code
+    as it is (`HeapFix.cur`: the compiled function keeps the copy numba froze) and the code with the proposed fix E
+    (`HeapFix.fixE`); which one applies is decided by the first fixed history and must then hold for ALL histories of
+    the run.  The monitor is independent of that: every value read must be the current content (`href`)."""
+    from harness.common.lean import LeanBatch
+    b = LeanBatch(ctx.workdir)
+    idx = []
+    for c, r in zip(cases, results):
+        if isinstance(r, str):
+            idx.append(None)
+            continue
+        idx.append(tuple(b.add("c04.replay_heap", {"inval": True, "check": True, "content": cont, "init": c["init"], "events": r["events"]})
+                         for cont in (False, True)))
+    ans = b.run()
+    deriv = None
+    for c, r, ii in zip(cases, results, idx):
+        kinds = [e[0] for e in c["events"]]
+        ctx.count(c, nontrivial="rate_jit" in kinds and any(k in kinds for k in ("write", "relink", "assign_new")), leg="heap:jit")
+        if ii is None:
+            died(ctx, "heap:jit", c, r, "heap")
+            continue
+        ctx.impl_traces += 1
+        models = []
+        for i in ii:
+            st, val = ans[i]
+            models.append(val if st == "ok" else None)
+        if any(m is None for m in models):
+            ctx.disagree("heap:jit", c, f"model error {[ans[i][1] for i in ii]}", r["read"])
+            continue
+        match = [list(m["read"]) == list(r["read"]) for m in models]
+        if deriv is None:
+            # the first case is the fixed history [rate_jit, write, rate_jit] on which the two derivations differ
+            deriv = 0 if match[0] else 1 if match[1] else None
+            ctx.hist("heap-jit-derivation", {0: "code as it is (frozen copy, finding E open)", 1: "fix E (content compared)", None: "neither"}[deriv])
+            if deriv is None:
+                deriv = 0
+        if not match[deriv]:
+            ctx.disagree("heap:jit", c, {"model_reads": models[deriv]["read"], "derivation": ["HeapFix.cur", "HeapFix.fixE"][deriv]},
+                         {"real_reads": r["read"]}, "values read by the compiled rate / cached helpers")
+        ctx.monitor_evals += 1
+        ref = models[0]["ref"]
+        if list(ref) != list(r["read"]):
+            fb = _first_bad(c, ref, r["read"])
+            key = KEY_FROZEN if fb == "rate_jit" and not _stale_needs_relink(c, ref, r["read"]) else KEY_PDE if fb in ("rate", "rate_jit") else KEY_F2
+            ctx.monitor_fail("heap:jit", c, {"values_read": r["read"]}, {"current_content": ref}, "heap: " + key["symptom"], key=key)
+
+
+def _stale_needs_relink(c, ref, read):
+    """is the first stale compiled read explained only by a change of the array object (finding C), i.e. no in-place write
+    happened since the compiled rate was last evaluated or the array object last changed?"""
+    reads = iter(zip(ref, read))
+    wrote = False
+    for e in c["events"]:
+        if e[0] == "write":
+            wrote = True
+        elif e[0] in ("interp", "rate", "rate_jit"):
+            a, b = next(reads)
+            if a != b:
+                return not wrote
+            if e[0] == "rate_jit":
+                wrote = False
     return False
 
 
@@ -1874,10 +2692,30 @@ def _cpu():
     return r.ru_utime + r.ru_stime
 
 
+def _selftest():
+    """the comparison the monitors rest on (reviewer finding 8): elementwise, NaN- and inf-safe"""
+    inf, nan = float("inf"), float("nan")
+    good = [([1e18, 1.0], [1e18, 1.0]), ([inf, 1.0], [inf, 1.0]), ([nan, 1.0], [nan, 1.0]), ([1.0], [1.0 + 1e-13]), ([], [])]
+    bad = [([1e18, 1.0], [1e18, 2.0]), ([inf, 1.0], [inf, 2.0]), ([inf], [5.0]), ([inf], [-inf]), ([nan], [1.0]), ([1.0], [nan]),
+           ([4.6e18, 0.0], [4.6e18, 1e3]), ([1.0, 2.0], [1.0]), ([1.0], [1.0 + 1e-6])]
+    for x, y in good:
+        if not (arr_close(x, y) and same_result(x, y)):
+            return f"arr_close/same_result reject equal arrays {x} {y}"
+    for x, y in bad:
+        if arr_close(x, y) or same_result(x, y):
+            return f"arr_close/same_result accept different arrays {x} {y}"
+    if not arr_close([1.0, 5.0], [1.0, 7.0], mask=[True, False]) or arr_close([1.0, 5.0], [2.0, 5.0], mask=[True, False]):
+        return "arr_close ignores its mask"
+    return None
+
+
 def run(ctx):
-    from harness.common.lean import LeanBatch
+    from harness.common.lean import LeanBatch, BrokenCheck
     quiet()
-    legs = os.environ.get("C04_LEGS", "pairs,heap,histories").split(",")  # dev only: subset of the legs
+    err = _selftest()
+    if err:
+        raise BrokenCheck("C04 self-test: " + err)
+    legs = os.environ.get("C04_LEGS", "pairs,heap,histories").split(",")  # dev only: subset of the legs (the run then ends as BROKEN-CHECK)
     batch = LeanBatch(ctx.workdir)
     t0, c0 = time.time(), _cpu()
     pending = run_pairs(ctx, batch) if "pairs" in legs else []
@@ -1895,6 +2733,18 @@ def run(ctx):
         run_histories(ctx)
     ctx.extra["t_histories"] = round(time.time() - t0, 1)
     ctx.monitor_failures.sort(key=lambda m: len(json.dumps(m["case"], default=str)))
+    if set(legs) != {"pairs", "heap", "histories"}:
+        # a development run of some legs must neither write evidence nor exit 0
+        from harness.common.lean import BrokenCheck
+        import collections
+        for (lg, what), n_ in collections.Counter((m["leg"], m["what"]) for m in ctx.monitor_failures).items():
+            ex = next(m for m in ctx.monitor_failures if (m["leg"], m["what"]) == (lg, what))
+            print(f"DEV monitor failures: {n_} x {lg}: {what}; smallest: {json.dumps(ex['case'], default=str)[:700]}")
+        for d in ctx.disagreements[:10]:
+            print("DEV disagreement:", json.dumps(d, default=str)[:400])
+        raise BrokenCheck(f"C04_LEGS={','.join(legs)}: development run of a subset of the legs "
+                          f"(cases {ctx.evaluations}, disagreements {len(ctx.disagreements)}, monitor failures {len(ctx.monitor_failures)}, "
+                          f"timings {ctx.extra})")
 
 
 def search(ctx, broken):
@@ -1913,10 +2763,21 @@ def search(ctx, broken):
             prefer.append(c)
     cases = prefer[:400] + [gen_req_pair(rng, nohist) for _ in range(ctx.budget(2500, 10000))] \
         + [gen_interp_pair(rng, nohist) for _ in range(600)] + [gen_nobc_pair(rng, nohist) for _ in range(300)]
-    res = run_many("harness.c04", "pair_worker", cases, env={"NUMBA_DISABLE_JIT": "1"}, procs=16)
+    res = run_resilient("pair_worker", cases, {"NUMBA_DISABLE_JIT": "1"})
     found = []
     for c, r in zip(cases, res):
-        if isinstance(r, str) or "error" in r or "cached_ok" not in r:
+        if isinstance(r, str):
+            if r.startswith("CRASH"):
+                found.append({"leg": "search:" + c["kind"], "case": slim(c), "observed": {"symptom": "crash", "outcome": r[:300]},
+                              "expected": {"a_result": True}, "what": "the interpreter dies",
+                              "key": {"call_site": c["kind"], "symptom": "the interpreter dies (crash of the real code)"}})
+            continue
+        if r.get("one_sided"):
+            found.append({"leg": "search:" + c["kind"], "case": slim(c), "observed": {"symptom": "one_sided_exception", "outcomes": r["one_sided"]},
+                          "expected": {"cached_and_fresh_calls_fail_alike": True}, "what": "exception on one side only",
+                          "key": {"call_site": c["kind"], "symptom": "exception in the cached or the fresh call only"}})
+            continue
+        if "error" in r or "cached_ok" not in r:
             continue
         ctx.monitor_evals += 1
         if not r["cached_ok"] or (r.get("shared") and not r["sem_eq"]):
@@ -1932,27 +2793,83 @@ def search(ctx, broken):
     for h, r in zip(hs, rh):
         if isinstance(r, dict) and "malformed" not in r and not r["same"]:
             hh = r.get("shrunk", h)
-            found.append({"leg": "search:history", "case": hh, "observed": {"last_result_in_history": r["full"]},
+            found.append({"leg": "search:history", "case": hh, "observed": {"last_result_in_history": r["full"], "failure_class": r.get("class")},
                           "expected": {"same_call_in_fresh_interpreter": r["fresh"]}, "what": "history: last result differs",
                           "key": history_key(hh, r)})
     return found
 
 
+def _iso(func, arg, jit):
+    """one call in a new interpreter with the execution mode of the recorded leg"""
+    return run_many("harness.c04", func, [arg], env={"NUMBA_DISABLE_JIT": "0" if jit else "1"}, procs=1)[0]
+
+
 def replay(ctx, rep):
+    """re-run the RECORDED case in the recorded leg's execution mode and judge the recorded symptom"""
     quiet()
-    case = rep["case"]
+    from harness.common.lean import LeanBatch, BrokenCheck
+    case = rep.get("case")
+    leg = str(rep.get("leg", ""))
+    if not isinstance(case, dict):
+        print("this file records no single case (broken tie): nothing to re-run here")
+        return False
     if "ops" in case:
-        r = hist_worker(case)
-        print(json.dumps({"in_history": r["full"], "fresh": r["fresh"]}, default=str)[:3000])
-        return bool(r["same"])
+        # histories:S (source semantics), histories:J (compiled), histories:new-interpreter, search:history
+        if leg.endswith("new-interpreter"):
+            try:
+                a, b = _iso("hist_exec_full", case, False), _iso("hist_exec_fresh", case, False)
+            except BrokenCheck as e:
+                print("an interpreter died:", str(e)[-300:])
+                return False
+            print(json.dumps({"in_history": a, "fresh": b}, default=str)[:3000])
+            return bool(hist_same(a, b)) and not (isinstance(a, str) and a.startswith("EXC: "))
+        jit = leg.endswith(":J")
+        r = _iso("hist_worker_noshrink", case, jit)
+        if isinstance(r, str):
+            print("worker exception:", r[-600:])
+            return False
+        print(json.dumps({"mode": "compiled" if jit else "NUMBA_DISABLE_JIT=1", "in_history": r["full"], "fresh": r["fresh"]}, default=str)[:3000])
+        if "malformed" in r:
+            print("the recorded history cannot be judged any more (" + r["malformed"] + "): counted as failing")
+            return False
+        recorded = (rep.get("observed") or {}).get("failure_class") if isinstance(rep.get("observed"), dict) else None
+        print("recorded kind of failure:", recorded, "- now:", r["class"])
+        return r["class"] is None or (recorded is not None and r["class"] != recorded and r["class"] == "mutation")
     if case.get("kind") == "heap":
-        from harness.common.lean import LeanBatch
-        r = real_heap(case)
+        jit = bool(case.get("jit")) or leg == "heap:jit"
+        r = _iso("heap_worker_forked", case, jit)
+        if isinstance(r, str):
+            print("the real code died or raised:", r[-600:])
+            return False
         b = LeanBatch(ctx.workdir)
         b.add("c04.replay_heap", {"inval": True, "check": True, "init": case["init"], "events": r["events"]})
         st, val = b.run()[0]
-        print("read:", r["read"], "current content:", val.get("ref") if st == "ok" else val)
+        print("mode:", "compiled" if jit else "NUMBA_DISABLE_JIT=1", "read:", r["read"], "current content:", val.get("ref") if st == "ok" else val)
         return st == "ok" and list(val["ref"]) == list(r["read"])
-    res = pair_worker(case)
-    print(json.dumps({k: v for k, v in res.items() if k not in ("ga", "gb", "sa", "sb")}, default=str)[:2000])
-    return bool(res.get("cached_ok", True)) and not (res.get("shared") and res.get("sem_eq") is False)
+    if case.get("kind") == "heapdep":
+        res = _iso("jit_worker", case, True)
+        if isinstance(res, str):
+            print("worker exception:", res[-600:])
+            return False
+        print(json.dumps(res, default=str)[:2000])
+        return not res.get("heap_dep")
+    if case.get("kind") in ("req", "interp", "nobc"):
+        res = _iso("pair_worker_forked", case, False)
+        if isinstance(res, str):
+            print("worker exception:", res[-600:])
+            return False
+        print(json.dumps({k: v for k, v in res.items() if k not in ("ga", "gb", "sa", "sb")}, default=str)[:2000])
+        symptom = (rep.get("observed") or {}).get("symptom") if isinstance(rep.get("observed"), dict) else None
+        fails = {"cached_differs": res.get("cached_ok") is False,
+                 "shared_different_sem": bool(res.get("shared")) and res.get("sem_eq") is False,
+                 "heap_dependence": bool(res.get("heap_dep")),
+                 "heap_dependence_field": bool(res.get("heap_dep_field")),
+                 "one_sided_exception": bool(res.get("one_sided"))}
+        if "cached_ok" not in res and not res.get("one_sided"):
+            print("the recorded pair can no longer be built/applied (" + str(res.get("error")) + "): counted as failing")
+            return False
+        if symptom in fails:
+            return not fails[symptom]
+        return not any(fails.values())
+    print(f"cases of kind {case.get('kind')!r} (leg {leg!r}) record a model/code disagreement, not a failing input: cannot be replayed")
+    return False
